@@ -7,7 +7,7 @@
 \*   state  (x, fx, dx, k)                         the `State` dataclass of the code (k is its field `i`)
 \*   Init   (x0, g(x0), (1,...,1), 0)              dx is initialised with ones by the code
 \*   Step   enabled while  cond1 /\ cond2 /\ cond3 (the code's `cond_fun`):
-\*            cond1  |fx| > tol sqrt(size fx)      on squared norms:  |fx|^2 > size / T^2,  tol = 1 / T
+\*            cond1  |fx| > tol sqrt(size fx)      on squared norms:  |fx|^2 > size / T^2,  tol = 1 / T, T any integer >= 1
 \*            cond2  k < maxiter
 \*            cond3  |dx| > tol sqrt(size dx)
 \*          J = g'(x);  H = J L;  r = fx + J (m - x);  dy = lstsq(H, r);  dx = m - x - L dy;  x+ = x + dx
@@ -30,7 +30,8 @@
 \*   InvBudget   k <= maxiter
 \*   InvOutcome  a returned point satisfies the constraint to the tolerance, or the budget is exhausted
 \*               (iters = maxiter and the reported final_constraint is above the tolerance); the third exit of the
-\*               guard (increment below tolerance, constraint not) does not occur when every solve had full row rank
+\*               guard (increment below tolerance, constraint not) does not occur for tol <= 2^-10 when every solve had
+\*               full row rank (for coarser tolerances it is a third, truthfully reported outcome "stalled")
 \*   Export      (always true) prints every visited state, the return record and, for affine instances, the
 \*               exact conditional mean / covariance / Mahalanobis norm of one filter update
 EXTENDS RatLinAlg, Json
@@ -152,11 +153,19 @@ InvTruthful ==
      /\ ret[1].final_constraint = st.fx /\ ret[1].final_increment = st.dx
      /\ ~ArithBlocked(st) /\ ~Cont(Inst, st)
 
+\* A full-row-rank step solves the linearised constraint exactly, so the new residual is the quadratic remainder
+\* dx^T Q dx; an increment below the tolerance with a residual above it ("stalled") therefore needs
+\* tol |Q| D >= sqrt(K), i.e. a coarse tolerance.  For tol <= 2^-10 (the property quantifies over 1e-4..1e-12) the
+\* third exit must not occur; for the coarse tolerances of the guard-band instances it is a legitimate, truthfully
+\* reported outcome of the documented three-way guard.
+FineTol(inst) == inst.T >= 1024
 InvOutcome ==
   (ret # <<>>) =>
-     /\ ret[1].outcome \in {"feasible", "budget_exhausted"}
+     /\ ret[1].outcome \in {"feasible", "budget_exhausted", "stalled"}
+     /\ FineTol(Inst) => ret[1].outcome # "stalled"
      /\ (ret[1].outcome = "feasible") <=> ~Cond1(Inst, st)
      /\ (ret[1].outcome = "budget_exhausted") => (ret[1].iters = Inst.maxiter /\ Cond1(Inst, st))
+     /\ (ret[1].outcome = "stalled") => (ret[1].iters < Inst.maxiter /\ Cond1(Inst, st) /\ ~Cond3(Inst, st))
 
 \* ------------------------------------------------------------------ export for the conformance harness
 ExportState ==
